@@ -145,6 +145,23 @@ PROPS = {
         "assumptions": COMMON_ASSUME + ["general-purpose registers are outside the statement and not judged", "requires AVX-512 on the host to capture zmm16-31/k0-7 "
                                         "(reported as not covered otherwise)", "partial values (e.g. later tweaks, counter blocks) are not demanded by the statement"],
     },
+    "C13": {
+        "title": "FIPS build fails closed: no approved crypto after a failed self-test",
+        "variant": "fips",
+        "ldflags": ["-Wl,--wrap=_aes_self_tests", "-Wl,--wrap=_sha_self_tests"],
+        "quick": {"cases": 800000},
+        "thorough": {"cases": 30000000},
+        "rule": "FIPS_MODE build; rapidcheck cases over the catalog of all isal_ entry points (cross-checked against nm: unknown ones are reported as uncovered) x "
+                "self-test state {failed, passed, not yet run + injected failing self test, not yet run + passing self test} x otherwise valid random arguments; XTS "
+                "additionally with key1 == key2 (same pointer / equal copy, raw and pre-expanded). The (entry x state) grid is covered completely by sampling "
+                "(>=200 argument draws per pair in the quick tier). Oracle: approved entry in a failing state returns ISAL_CRYPTO_ERR_SELF_TEST and every "
+                "output/object byte equals its prefill; in a not-yet-run state the (link-time wrapped) self tests are entered exactly once and before any output byte "
+                "changed and the verdict is published; passed state returns 0; non-approved entries always return FIPS_INVALID_ALGO with outputs untouched; XTS with "
+                "identical keys is refused with outputs untouched. Non-trivial = state != passed; distinct = (entry, state, key-equality mode, length class).",
+        "assumptions": COMMON_ASSUME + ["objects needed by a valid call (manager, key data, GCM context) are prepared through the internal un-gated entry points",
+                                        "for the decrypt expanded-key XTS entry points equal raw keys cannot be recognised from the (different) schedules; the statement "
+                                        "quantifies over identical pre-expanded arrays, which is what is generated"],
+    },
 }
 
 # properties not (yet) claimed; kept current as checks are added
